@@ -64,6 +64,16 @@ NOTES.update({
  "w7-C17-m3": "missed at first (the trigger is a reader call, the observation point is BinaryBitmap.GetBlackMatrix): the binarise step now hands the bitmap to one to three readers with random hints and asks for the matrix again",
  "w7-C18-m3": "missed at first: readers were given PURE_BARCODE / TRY_HARDER only; task-private hint maps with CHARACTER_SET, ALSO_INVERTED, ASSUME_GS1 added to the QR, Data Matrix and Aztec read operations",
 })
+NOTES.update({
+ "w8-C04-m2": "a schedule-only change (shared scratch on the package-level field object): not C04's to see; caught by C18 (race, state)",
+ "w8-C04-m3": "missed at first: the field job always asked Exp first; 24 light jobs at the head of the job list make each accessor (Log, Exp, Inverse, Multiply) the first call on each field object in some worker process, and the replay (a fresh process) is by construction a first call",
+ "w8-C10-m2": "missed at first: Code 39 with the optional modulo-43 check character (an anchored file, the statement's general clause) was not driven at all; reference Code 39 built from the symbology's structure, readers with the check flag in plain and extended mode, symbols of 0..12 data characters, every substitution. This exposed a crash of the unchanged extended-mode reader on valid text ending in a shift character (outside C10, counted)",
+ "w8-C10-m3": "a schedule-only change (package-level scratch array in convertUPCEtoUPCA): caught by C18 (race, result differs from solo)",
+ "w8-C11-m1": "missed at first: the reference sender kept the recommended three check words; symbols filled to the brim (one or two check words, MinCheck in the trace) added",
+ "w8-C11-m3": "missed at first: binary runs were at most 112 bytes; single long-form shifts of several hundred bytes added (text generator and the encoder's on-purpose long form)",
+ "w8-C17-m3": "missed at first: RGB ints all carried 0xFF in the top byte; top bytes 0x00, random, mixed and sign-extended added (they carry no colour)",
+ "w8-C18-m1": "first run: exit 2 - the race was reported with both stacks entirely in the root package, which the report parser did not count as library frames (only sub-packages matched the prefix); fixed. The `parentcrop` operation (tasks derive their own crops / rotations from bitmaps built before the tasks start) was added for this change",
+})
 rows=[]
 for d in sorted(glob.glob('/verif/seeded/*/')):
     name=os.path.basename(d.rstrip('/'))
